@@ -34,6 +34,7 @@ let op_text (o : op) : string =
         (join " " (function PIdx a -> p "i %d" (i a) | PRange (a, b) -> p "r %d %d" (i a) (i b) | PAll -> "a") args)
   | OReindexed a -> p "reindexed %d" (i a)
   | OBlocked (a, b) -> p "blocked %d %d" (i a) (i b)
+  | OReindexedL l -> p "reindexedl %s" (join " " (fun x -> string_of_int (i x)) l)
 
 let op_kind (o : op) : string =
   match o with
@@ -41,7 +42,7 @@ let op_kind (o : op) : string =
   | ODropped _ -> "dropped" | OTaked _ -> "taked" | ORotated -> "rotated" | OUnrotated -> "unrotated"
   | OTransposed -> "transposed" | OReversed -> "reversed" | ODiagonal -> "diagonal"
   | OPartitioned _ -> "partitioned" | OChunked _ -> "chunked" | OHalved -> "halved" | OFlatted -> "flatted"
-  | OParen _ -> "paren" | OReindexed _ -> "reindexed" | OBlocked _ -> "blocked"
+  | OParen _ -> "paren" | OReindexed _ -> "reindexed" | OBlocked _ -> "blocked" | OReindexedL _ -> "reindexedl"
 
 let divisors n = List.filter (fun d -> n mod d = 0) (List.init (max n 1) (fun k -> k + 1))
 
@@ -57,7 +58,7 @@ let candidate (c : cfg) (v : view) : op option =
     [ (10, `Index); (12, `Sliced); (4, `SlicedS); (6, `Strided); (6, `Dropped); (4, `Taked);
       (12, `Rotated); (6, `Unrotated); (10, `Transposed); (5, `Reversed); (5, `Diagonal);
       (6, `Partitioned); (4, `Chunked); (3, `Halved); (6, `Flatted); (12, `Paren) ]
-    @ (if c.rebased then [ (12, `Reindexed); (8, `Blocked) ] else []) in
+    @ (if c.rebased then [ (12, `Reindexed); (8, `Blocked); (6, `ReindexedL) ] else []) in
   match weighted kinds with
   | `Index -> if r >= 2 && n > 0 then Some (OIndex (z (rnd_range f (l - 1)))) else None
   | `Sliced -> let (a, b) = slice () in Some (OSliced (z a, z b))
@@ -93,6 +94,7 @@ let candidate (c : cfg) (v : view) : op option =
       if nidx = r then None else Some (OParen args)
   | `Reindexed -> Some (OReindexed (z (rnd_range (-3) 3)))
   | `Blocked -> let (a, b) = slice () in Some (OBlocked (z a, z b))
+  | `ReindexedL -> if r >= 2 then Some (OReindexedL (List.init (rnd_range 2 (min r 4)) (fun _ -> z (rnd_range (-3) 3)))) else None
 
 let all_idx (exts : (int * int) list) : int list list =
   List.fold_right
@@ -202,6 +204,7 @@ let parse_op (toks : string list) : op =
   | [ "flatted" ] -> OFlatted
   | [ "reindexed"; a ] -> OReindexed (n a)
   | [ "blocked"; a; b ] -> OBlocked (n a, n b)
+  | "reindexedl" :: rest -> OReindexedL (List.map n rest)
   | "paren" :: _k :: rest ->
       let rec go = function
         | [] -> []
